@@ -484,7 +484,12 @@ def execute(env, attr, init, prog, created=False, source=None):
                 # the object first; a failure of that save is a failure to write what the session saw
                 try:
                     if o == 'call' and op['var'] in st['vars']:
-                        do_call(st['vars'][op['var']], op); do_call(st['mvars'][op['var']], op)
+                        xq = st['vars'][op['var']]
+                        try: do_call(xq, op)
+                        except TypeError:
+                            if not getattr(xq, 'dropped', False): raise
+                            continue        # an outdated wrapper of a volatile attribute refuses the change: nothing happened
+                        do_call(st['mvars'][op['var']], op)
                         find_paths(st['mirror'], st['mvars'][op['var']])
                         flush()
                 except Exception as ex:
@@ -526,6 +531,9 @@ def execute(env, attr, init, prog, created=False, source=None):
                 # a dead owner (session over / deleted) refuses: with the check BEFORE the built-in method nothing changes
                 refused = bool(st.get('dead')) and rerr in ('DatabaseSessionIsOver', 'OperationWithDeletedObjectError') and FACTS.get('refusesFirst') \
                     and isinstance(x, TrackedValue) and notifying(x, c)
+                # an outdated wrapper (volatile attribute, taken before a save) refuses before it changes anything
+                outdated = rerr == 'TypeError' and getattr(x, 'dropped', False)
+                if outdated: refused = True
                 if not array_reject and not refused:
                     try: do_call(y, c)
                     except Exception as ex: merr = type(ex).__name__
@@ -560,7 +568,7 @@ def execute(env, attr, init, prog, created=False, source=None):
                         if len(paths) > 1: res.shared += 1
                         for p in paths: res.model_ops.append({'t': c['t'], 'p': p, 'm': mm})
                         res.snaps.append((len(res.model_ops) - 1, snap(rerr), idx))
-                    elif isinstance(x, TrackedValue) and notifying(x, c) and not array_reject and (merr is None or FACTS.get('notifyOnError')):
+                    elif isinstance(x, TrackedValue) and notifying(x, c) and not array_reject and not outdated and (merr is None or FACTS.get('notifyOnError')):
                         res.model_ops.append({'t': 'touch'}); res.snaps.append((len(res.model_ops) - 1, snap(rerr if st.get('dead') else None), idx))
                 RESOLVE[0] = None
                 others_clean(idx)
@@ -602,7 +610,10 @@ def execute(env, attr, init, prog, created=False, source=None):
                 else:
                     if st['pk'] is None: continue               # (never committed: nothing to compare with)
                     from pony.orm import rollback
-                    rollback(); st['dead'] = 'rolled back'; res.model_valid = False
+                    rollback(); st['dead'] = 'rolled back'
+                    if st.get('committed') is None: res.model_valid = False        # (created and never committed: the row is gone)
+                    if res.model_valid:
+                        res.model_ops.append({'t': 'rollback'}); res.snaps.append((len(res.model_ops) - 1, snap(None, True), idx))
                 continue
             if st.get('dead') and o in ('flush', 'commit', 'reload', 'other', 'assign', 'readattr'):
                 if o in ('assign', 'other'):
@@ -687,7 +698,7 @@ def execute(env, attr, init, prog, created=False, source=None):
                 check_persisted(idx, o)
                 if o == 'commit': st['committed'] = canon(rootval())
                 if res.model_valid:
-                    res.model_ops.append({'t': 'flush'})
+                    res.model_ops.append({'t': 'flush' if o == 'flush' else 'commit'})
                 if attr in env.volatile and saved:
                     # `_update_dbvals_` dropped the volatile value; the look above has read it again: wrappers taken before are
                     # no longer part of the value (mirror: a fresh copy; the old mirror objects stay with their variables)
@@ -1105,7 +1116,7 @@ def classify_methods(base, sample, battery):
 
 def check_tables(ctx):
     facts = gen_tracked.introspect()
-    ctx.extra['tracked_table'] = {k: facts[k] for k in ('listOv', 'dictOv', 'arrOv', 'tupleMode', 'iterUnwrapped', 'notifyOnError', 'refusesFirst', 'rebinds', 'assignRebinds', 'other')}
+    ctx.extra['tracked_table'] = {k: facts[k] for k in ('listOv', 'dictOv', 'arrOv', 'tupleMode', 'iterUnwrapped', 'notifyOnError', 'refusesFirst', 'rebinds', 'assignRebinds', 'volatileStale', 'other')}
     if facts['errors']:
         ctx.divergence('probing the Tracked classes raised', facts['errors'])
     if not ctx.driver.ok:
